@@ -21,6 +21,7 @@ import yaml  # type: ignore[import-untyped]
 from ..common import Ctx
 from .. import pvlib, learncheck as lc
 from .c03 import norm_blk
+from .c04 import canon_file
 
 LEVEL = "proof"
 THEOREMS = [
@@ -35,13 +36,15 @@ FIELDS = ["jobId", "eventId", "eventType", "timestamp", "previousEventIds", "app
 CFG_ORDER = ["jobId", "eventId", "eventType", "timestamp", "previousEventIds", "applicationName", "jobName"]
 
 
-def gen_workflow(r: Any, name: str, k0: int, async_flag: bool) -> list[dict[str, Any]]:
+def gen_workflow(r: Any, name: str, k0: int, async_flag: bool, reorder: bool = False) -> list[dict[str, Any]]:
     """traces of one workflow: a root with 2-4 child calls, one of them optional / alternative, some nested"""
     kids = [f"{name[:1].upper()}{c}" for c in "BCDE"[: r.choice([2, 3, 4])]]
     alt = r.choice(kids)
     pad = r.choice(["x", "x", " ", "  y", "\t"])
     spans = []
     n_traces = r.choice([2, 3, 4])
+    # reorder: the calls keep their names and stored order but run in another order in some traces; the traces
+    # then differ only in their links, never in the list of event types
     for t in range(n_traces):
         jid = f"{name}-t{t}-{k0}"
         st = T0 + (k0 + t) * 10**7
@@ -50,14 +53,20 @@ def gen_workflow(r: Any, name: str, k0: int, async_flag: bool) -> list[dict[str,
                       "start_timestamp": str(st), "end_timestamp": str(st + 9000), "application_name": "app " + name,
                       "parent_event_id": None})
         variant = t % 2
-        off = 100
+        slots = list(range(len(kids)))
+        if reorder and t > 0:
+            r.shuffle(slots)
+        offs, off = [], 100
+        for i in range(len(kids)):
+            offs.append(off)
+            off += 1000 if not (async_flag and i == 0) else 600
         for i, kt in enumerate(kids):
             # the alternative differs by a letter, or only by edge / inner white space (values must survive verbatim)
             typ = kt if not (kt == alt and variant) else kt + pad
             cid = f"{jid}.{i}"
             # async: overlapping windows for the first two children only
-            cs = st + off
-            ce = cs + (1500 if async_flag and i == 0 else 500)
+            cs = st + offs[slots[i]]
+            ce = cs + (1500 if async_flag and slots[i] == 0 else 500)
             spans.append({"job_name": name, "job_id": jid, "event_type": typ, "event_id": cid,
                           "start_timestamp": str(cs), "end_timestamp": str(ce), "application_name": "app " + name,
                           "parent_event_id": rid})
@@ -65,25 +74,30 @@ def gen_workflow(r: Any, name: str, k0: int, async_flag: bool) -> list[dict[str,
                 spans.append({"job_name": name, "job_id": jid, "event_type": kt + "n", "event_id": cid + ".n",
                               "start_timestamp": str(cs + 10), "end_timestamp": str(cs + 20),
                               "application_name": "app " + name, "parent_event_id": cid})
-            off += 1000 if not (async_flag and i == 0) else 600
     return spans
 
 
 def gen_case(ctx: Ctx, k: int) -> dict[str, Any]:
     r = ctx.rng
-    names = r.sample(["wf", "order flow", "Billing", "a b c", "x-1"], k=r.choice([1, 2, 3]))
+    # every third case: one workflow whose traces differ only in the order the same calls ran.  The learner is
+    # outside its sound fragment there (its diagrams may depend on the order of presentation, or it may fail), so
+    # those cases are judged on the saved files and on the learned model files, not on the diagrams
+    reorder = k % 3 == 2
+    names = r.sample(["wf", "order flow", "Billing", "a b c", "x-1"], k=1 if reorder else r.choice([1, 2, 3]))
     async_flag = r.random() < 0.5
     spans: list[dict[str, Any]] = []
     for i, n in enumerate(names):
-        spans += gen_workflow(r, n, k * 100 + i * 10, async_flag)
-    r.shuffle(spans)
+        spans += gen_workflow(r, n, k * 100 + i * 10, async_flag, reorder)
+    if not reorder:
+        r.shuffle(spans)    # reorder cases keep every trace in call-tree order: same stored order in every trace
     custom = r.random() < 0.5
     mapping = None
     if custom:
         mapping = {f: r.choice([f + "_x", f.upper(), "f" + str(i)]) for i, f in enumerate(FIELDS)}
     ctx.tick("mapping_custom" if custom else "mapping_default")
     ctx.tick("async" if async_flag else "sync")
-    return {"names": names, "spans": spans, "async": async_flag, "mapping": mapping, "k": k}
+    ctx.tick("kind_reorder" if reorder else "kind_alternatives")
+    return {"names": names, "spans": spans, "async": async_flag, "mapping": mapping, "k": k, "reorder": reorder}
 
 
 def write_inputs(tmp: str, case: dict[str, Any]) -> dict[str, str]:
@@ -117,8 +131,9 @@ def run(ctx: Ctx) -> None:
     quick = ctx.tier == "quick"
     ctx.cov["rule"] = (
         "seeded trace sets of 1-3 workflows (names with spaces, capitals, dashes), 2-4 traces each (root + 2-4 child calls, "
-        "an alternative child type, optional nested call), spans shuffled x {default, custom} PV mapping x {sync, async} "
-        "sequencing, through argparse + main_handler: otel2puml / otel2pv -se / pv2puml -fp -jn. non-trivial: >= 2 "
+        "an alternative child type, optional nested call; every third case one workflow whose traces run the same "
+        "calls in different orders, judged on saved files and model files only), spans shuffled x {default, custom} PV mapping x {sync, async} "
+        "sequencing, through argparse + main_handler: otel2puml -om / otel2pv -se / pv2puml -om -fp -jn. non-trivial: >= 2 "
         "workflows, or a custom mapping, or async sequencing"
     )
     tmp = tempfile.mkdtemp(prefix="o2p14_")
@@ -131,7 +146,7 @@ def run(ctx: Ctx) -> None:
         for c in cases:
             p = c["paths"]
             mc = ["-mc", p["mapping"]] if "mapping" in p else []
-            reqs.append({"op": "cli", "argv": ["-o", os.path.join(p["dir"], "out1"), "otel2puml", "-c", p["config"]],
+            reqs.append({"op": "cli", "argv": ["-o", os.path.join(p["dir"], "out1"), "otel2puml", "-om", "-c", p["config"]],
                          "hash_seed": 0, "timeout": 120})
             reqs.append({"op": "cli", "argv": ["-o", os.path.join(p["dir"], "out2"), "otel2pv", "-c", p["config"], "-se"] + mc,
                          "hash_seed": 0, "timeout": 120})
@@ -147,7 +162,7 @@ def run(ctx: Ctx) -> None:
             for n in c["names"]:
                 folder = os.path.join(p["dir"], "out2", n)
                 if os.path.isdir(folder):
-                    reqs.append({"op": "cli", "argv": ["-o", os.path.join(p["dir"], "out3"), "pv2puml", "-fp", folder,
+                    reqs.append({"op": "cli", "argv": ["-o", os.path.join(p["dir"], "out3"), "pv2puml", "-om", "-fp", folder,
                                                        "-jn", n] + mc, "hash_seed": 0, "timeout": 120})
                     meta.append((i, n))
         reps = pvlib.run_requests(reqs)
@@ -168,6 +183,10 @@ def run(ctx: Ctx) -> None:
         for i, c in enumerate(cases):
             p = c["paths"]
             c["bad"] = None
+            if c["reorder"] and ("error" in c["r1"] or c["r1"].get("exit")) and not (
+                    "error" in c["r2a"] or c["r2a"].get("exit") or "error" in c["mem"]):
+                ctx.tick("reorder_learner_failed_in_otel2puml")
+                c["r1"] = {"exit": 0, "learner_failed": True}
             if "error" in c["r1"] or c["r1"].get("exit") or "error" in c["r2a"] or c["r2a"].get("exit") or "error" in c["mem"]:
                 c["bad"] = (f"a route failed: otel2puml {c['r1'].get('error') or c['r1'].get('exit')}, otel2pv "
                             f"{c['r2a'].get('error') or c['r2a'].get('exit')}, in-memory {c['mem'].get('error')}: "
@@ -211,6 +230,19 @@ def run(ctx: Ctx) -> None:
                 f1 = os.path.join(p["dir"], "out1", n.replace(" ", "_") + ".puml")
                 f3 = os.path.join(p["dir"], "out3", n.replace(" ", "_") + ".puml")
                 r2b = c.get("r2b", {}).get(n, {"error": "no saved folder"})
+                m1, m3 = f1[:-5] + "_model.json", f3[:-5] + "_model.json"
+                if os.path.exists(m1) and os.path.exists(m3):
+                    with open(m1) as fa, open(m3) as fb:
+                        ma, mb = json.load(fa), json.load(fb)
+                    ctx.tick("model_files_compared")
+                    if canon_file(ma) != canon_file(mb) or ma.get("job_name") != mb.get("job_name"):
+                        c["bad"] = (f"workflow {n!r}: the model file saved by otel2puml and the one saved by pv2puml on "
+                                    f"the saved PV files differ (types, successor/predecessor sets or counts)")
+                        break
+                if c["reorder"]:
+                    if c["r1"].get("learner_failed") or "error" in r2b or r2b.get("exit"):
+                        ctx.tick("reorder_learner_failed")
+                    continue
                 if "error" in r2b or r2b.get("exit") or not os.path.exists(f1) or not os.path.exists(f3):
                     c["bad"] = (f"workflow {n!r}: pv2puml on the saved files failed or a diagram is missing "
                                 f"({r2b.get('error') or r2b.get('exit')}; {str(r2b.get('output'))[-200:]})")
